@@ -14,8 +14,14 @@ from vplib import *
 import lmmm
 from lmmm import *
 
-OCAML = lmmm.OCAML
-HARNESS = lmmm.HARNESS
+import importlib.util as _ilu0
+def _load_part(name):
+    sp = _ilu0.spec_from_file_location("part_" + name, os.path.join(VERIF, "checks", name + ".py"))
+    m = _ilu0.module_from_spec(sp); sp.loader.exec_module(m)
+    return m
+bvm_part = _load_part("bvm_part")
+OCAML = lmmm.OCAML + bvm_part.OCAML
+HARNESS = lmmm.HARNESS + bvm_part.HARNESS
 
 
 def near_miss(rng, src):
@@ -251,7 +257,7 @@ def run(ck):
         if 'crash' in r:
             if r['crash'] == "stack-overflow" and kind.startswith(("near", "filemut")):
                 bump("mutant_unbounded_recursion"); continue
-            hit = [c for c in ("F3", "F40", "F41") if c in cls and c in findings]
+            hit = [c for c in ("F3", "F40", "F41", "X7") if c in cls and c in findings]
             if hit:
                 bump("crash_in_known_class_" + hit[0]); ck.known(findings[hit[0]], kind + " " + src.replace("\n", " ")[:120]); continue
             viol.append(("process died (%s) on %s" % (r['crash'], kind), src, rq)); continue
@@ -297,6 +303,10 @@ def run(ck):
                                 else:
                                     viol.append(("VM state access [%d,%d) outside the storage of %d words" % (ev[1], ev[1] + ev[2], ev[3]), src, rq))
                                 break
+    # ---------------- bytecode part: model VM = real VM on real bytecode, verified bytecode verifier (checks/bvm_part.py) ----------------
+    ck.known = _known
+    bvm_viol = bvm_part.run_part(ck, quick)
+    ck.known = known_and_note
     stale = sorted(w["id"] for w, rq in wits if "repaired" not in w and w["id"] in findings and w["id"] not in reproduced)
     listed_without_witness = sorted(set(findings) - {w["id"] for w, _ in wits})
     for fid in stale:
@@ -319,7 +329,9 @@ def run(ck):
     for what, src, rq in uniq[:12]:
         ck.violation(what, {"source": src, "request": {k: v for k, v in rq.items() if k not in ("src",)},
                             "how": "echo '<request json with src>' | .cache/target/lang/debug/lmmm_run"})
-    if not proved and not viol:
+    for what, rp in bvm_viol[:6]:
+        ck.violation(what, {k: v for k, v in rp.items() if k != "no_input"}, no_input=bool(rp.get("no_input")))
+    if not proved and not viol and not bvm_viol:
         ck.violation("a proof obligation of Props/C03.v no longer checks", {"broken": ck.broken}, no_input=True)
     return finish(ck)
 
@@ -331,6 +343,14 @@ def finish(ck):
                      "accepted programs (generated, near-miss mutants that still type-check, shipped sources and their mutants) must compile and run "
                      "N samples on both backends without panic / abort / SIGSEGV / timeout, VM state accesses are bounds-checked through hook H1; "
                      "rejected programs must be rejected by diagnostics, never by a compiler panic. Memory safety of Rust `unsafe` code itself, "
-                     "closures, heap objects, arrays and globals are not modelled."),
-        trusted_base=["Coq 8.16.1 kernel", "harness supervision (process exit status, catch_unwind)", "hook H1 bounds data", "lib/lmmm.py generator"],
+                     "closures, heap objects, arrays and globals are not modelled.  BYTECODE PART (Props/C03_bvm.v, checks/bvm_part.py): Bvm/Model.v "
+                     "runs the real compiler's bytecode (one constructor per bytecode::Instruction variant, pinned each run) and agrees with the real VM "
+                     "bit for bit per sample; Bvm/Verify.v is a bytecode verifier whose soundness is proved (C03_bvm_verified_safe / _main_safe / "
+                     "_session_safe: accepted bytecode never faults for any arithmetic, input and number of samples, dsp leaves exactly its declared "
+                     "words, storage = published size, cursor home; C03_bvm_fuel: explicit fuel bound) and which is run on the bytecode of every "
+                     "generated and shipped program: a rejection of compiler-emitted bytecode is a violation covering all paths.  Outside the "
+                     "bytecode part's subset: closures/upvalues, heap boxes, arrays, integer instructions, machine integer widths."),
+        trusted_base=["Coq 8.16.1 kernel", "harness supervision (process exit status, catch_unwind)", "hook H1 bounds data", "lib/lmmm.py generator",
+                      "extraction (ExtrOcamlBasic/ExtrOcamlString) + ocaml/bvm_drv.ml (Z/int64 conversion, IEEE and libm arithmetic record, external-function table)",
+                      "harness bin bc_dump.rs", "checks/bvm_part.py class predicates and comparison"],
         rule="generated core programs + 2 type-changing near-miss mutants each + all shipped .mmm + near-miss mutants; distinct_nontrivial = distinct accepted sources that ran to the end on a backend")
